@@ -47,6 +47,32 @@ fn json_type_matches(t: &str, v: &Value) -> bool {
     }
 }
 
+/// Syntax of the string formats the generator uses; None = format not modelled.
+/// (xcheck.py gives python jsonschema the same rules as patterns.)
+pub fn string_format_ok(fmt: &str, s: &str) -> Option<bool> {
+    fn shape(s: &str, pat: &str) -> bool {
+        // pat: 'd' digit, 'h' lower-case hex digit, anything else literal
+        s.len() == pat.len()
+            && s.chars().zip(pat.chars()).all(|(c, p)| match p {
+                'd' => c.is_ascii_digit(),
+                'h' => c.is_ascii_digit() || ('a'..='f').contains(&c),
+                _ => c == p,
+            })
+    }
+    fn ipv4(s: &str) -> bool {
+        let parts: Vec<&str> = s.split('.').collect();
+        parts.len() == 4 && parts.iter().all(|p| !p.is_empty() && p.len() <= 3 && p.chars().all(|c| c.is_ascii_digit()))
+    }
+    Some(match fmt {
+        "uuid" => shape(s, "hhhhhhhh-hhhh-hhhh-hhhh-hhhhhhhhhhhh"),
+        "date" => shape(s, "dddd-dd-dd"),
+        "date-time" => shape(s, "dddd-dd-ddTdd:dd:ddZ"),
+        "ipv4" => ipv4(s),
+        "ip" => ipv4(s) || (s.contains(':') && s.chars().all(|c| c == ':' || c.is_ascii_digit() || ('a'..='f').contains(&c))),
+        _ => return None,
+    })
+}
+
 pub fn resolve_ref<'a>(r: &str, defs: &'a Defs) -> Option<&'a Value> {
     let name = r
         .strip_prefix("#/definitions/")
@@ -121,6 +147,13 @@ pub fn validate(schema: &Value, inst: &Value, defs: &Defs, depth: u32) -> Option
         }
         if obj.contains_key("pattern") {
             return None; // the model has no regex engine
+        }
+        // string formats that typify maps to library types are read as
+        // assertions (the generated type can only hold such values)
+        if let Some(Value::String(fmt)) = obj.get("format") {
+            if let Some(good) = string_format_ok(fmt, s) {
+                ok &= good;
+            }
         }
     }
     // arrays
